@@ -45,11 +45,46 @@ def b_loadspin(d):  # the collector waits with a loop of plain loads and resets 
     new='        while cold_shard.count.load_acquire() != overall_count {\n            std::hint::spin_loop();\n        }\n        cold_shard.count.set(0);\n'
     open(p,'w').write(s[:i]+new+s[j:])
     sub(d+'/src/atomic64.rs', '    pub fn inc_by_with_ordering(&self, delta: u64, ordering: Ordering) {', '    pub fn load_acquire(&self) -> u64 {\n        self.inner.load(Ordering::Acquire)\n    }\n\n    /// doc\n    pub fn inc_by_with_ordering(&self, delta: u64, ordering: Ordering) {')
+def b_btreechildren(d):  # vector children kept in a BTreeMap keyed by the hash (collection order changes)
+    p=d+'/src/vec.rs'
+    sub(p, '    pub children: RwLock<HashMap<u64, T::M, BuildNoHashHasher>>,', '    pub children: RwLock<std::collections::BTreeMap<u64, T::M>>,')
+    sub(p, '            children: RwLock::new(HashMap::default()),', '            children: RwLock::new(std::collections::BTreeMap::new()),')
+def b_binsearch(d):  # bucket search by partition_point with a NaN-correct predicate (both observe paths)
+    p=d+'/src/histogram.rs'
+    s=open(p).read()
+    old1="""        let mut iter = self
+            .upper_bounds
+            .iter()
+            .enumerate()
+            .filter(|&(_, f)| v <= *f);
+        if let Some((i, _)) = iter.next() {
+            shard.buckets[i].inc_by(1);
+        }"""
+    new1="""        let i = self.upper_bounds.partition_point(|f| !(v <= *f));
+        if i < self.upper_bounds.len() {
+            shard.buckets[i].inc_by(1);
+        }"""
+    old2="""        let mut iter = self
+            .histogram
+            .core
+            .upper_bounds
+            .iter()
+            .enumerate()
+            .filter(|&(_, f)| v <= *f);
+        if let Some((i, _)) = iter.next() {
+            self.counts[i] += 1;
+        }"""
+    new2="""        let i = self.histogram.core.upper_bounds.partition_point(|f| !(v <= *f));
+        if i < self.counts.len() {
+            self.counts[i] += 1;
+        }"""
+    assert old1 in s and old2 in s
+    open(p,'w').write(s.replace(old1,new1).replace(old2,new2))
 def b_textfloat(d):  # text encoder: integer-valued samples written as "1.0" style? -> write +Inf as "+Inf" already; use explicit sign-free exponent
     pass
 
 B = {'sipdesc': (b_sipdesc, 'C15 C06 C07 C14 C05'), 'seqcst': (b_seqcst, 'C02 C03 C08 C12 C18'), 'sep': (b_sep, 'C15 C05 C06 C10'),
-     'strongcas': (b_strongcas, 'C01 C11 C02 C03'), 'gathervec': (b_gathervec, 'C07 C14'), 'vecreserve': (b_vecreserve, 'C10 C05 C01'), 'loadspin': (b_loadspin, 'C02 C03 C08 C12')}
+     'strongcas': (b_strongcas, 'C01 C11 C02 C03'), 'gathervec': (b_gathervec, 'C07 C14'), 'vecreserve': (b_vecreserve, 'C10 C05 C01'), 'loadspin': (b_loadspin, 'C02 C03 C08 C12'), 'btreechildren': (b_btreechildren, 'C10 C05 C07 C12 C01'), 'binsearch': (b_binsearch, 'C08 C12 C02 C03 C18')}
 
 names = sys.argv[1:] or list(B)
 bad = 0
